@@ -18,6 +18,7 @@ func init() {
 type pcMethod struct {
 	T        types.Type
 	Name     string
+	ABIName  string // the ABI method this implementer is constructed with (Methods["name"]); protocol-level, survives renames
 	Run      *ssa.Function
 	Readonly *bool // constant result of IsReadonly(), nil if not constant
 	ENA      []*enaSite
@@ -34,6 +35,7 @@ func (e *Engine) precompileMethods() []*pcMethod {
 	for _, T := range e.PrecompileMethods() {
 		m := &pcMethod{T: T, Name: shortTypeName(T)}
 		m.Run = e.MethodOf(T, "Run")
+		m.ABIName = e.abiNameOf(T)
 		if ro := e.MethodOf(T, "IsReadonly"); ro != nil {
 			var val *bool
 			consistent := true
@@ -1139,4 +1141,31 @@ func (e *Engine) ephemeralCtxEffect(i ssa.Instruction) bool {
 		}
 	}
 	return found
+}
+
+// abiNameOf: the constant key of the first abi.Methods[...] lookup in a constructor returning (a pointer to) T.
+func (e *Engine) abiNameOf(T types.Type) string {
+	want := namedTypeName(T)
+	best := ""
+	for _, fn := range e.Funcs {
+		if fn.Parent() != nil || fn.Signature.Recv() != nil || fn.Signature.Results().Len() != 1 {
+			continue
+		}
+		if namedTypeName(fn.Signature.Results().At(0).Type()) != want {
+			continue
+		}
+		allInstrs(fn, func(i ssa.Instruction) {
+			if best != "" {
+				return
+			}
+			if lk, ok := i.(*ssa.Lookup); ok {
+				if strings.HasSuffix(lk.Type().String(), "abi.Method") {
+					if k, ok := constString(lk.Index); ok {
+						best = k
+					}
+				}
+			}
+		})
+	}
+	return best
 }
